@@ -43,12 +43,12 @@ type Printer struct {
 type tokKind int
 
 const (
-	tkNone tokKind = iota
-	tkWord         // identifier, keyword, number: needs separation from another word
-	tkPunct        // brackets, comma, semicolon, dot
-	tkOp           // operators
-	tkStr          // string literal
-	tkUnary        // the prefix operator !
+	tkNone  tokKind = iota
+	tkWord          // identifier, keyword, number: needs separation from another word
+	tkPunct         // brackets, comma, semicolon, dot
+	tkOp            // operators
+	tkStr           // string literal
+	tkUnary         // the prefix operator !
 )
 
 // NewPrinter makes a canonical printer.
